@@ -1,6 +1,7 @@
 package main
 
 import (
+	"context"
 	"fmt"
 	"go/types"
 	"os"
@@ -72,8 +73,32 @@ func (E *Engine) buildVCs(key string) (res *FuncResult) {
 	fx.assert("(> " + st.get(fx, "G|alloc") + " 2000000)")
 	fr := &Frame{fx: fx, fn: f, key: key, vals: map[ssa.Value]Val{}, contract: ct, params: map[string]Val{}, top: true}
 	fr.entry = st.clone()
-	for _, p := range f.Params {
+	fx.rootAlloc = st.get(fx, "G|alloc")
+	// priv(a): array a was allocated during the current entry-point execution. Everything allocated from
+	// here on is; a function whose contract does not mention private(...) is treated as an entry point
+	// itself (closed world: nothing that existed at its entry is private).
+	fx.assert("(forall ((a Int)) (! (=> (>= a " + fx.rootAlloc + ") (priv a)) :pattern ((priv a))))")
+	mentionsPrivate := false
+	if ct != nil {
+		for _, cl := range ct.Requires {
+			if strings.Contains(cl.Text, "private(") {
+				mentionsPrivate = true
+			}
+		}
+	}
+	if !mentionsPrivate {
+		fx.assert("(forall ((a Int)) (! (=> (< a " + fx.rootAlloc + ") (not (priv a))) :pattern ((priv a))))")
+	}
+	mparams := mutableParams(f)
+	for i, p := range f.Params {
 		v := fx.symbolic(st, "p_"+p.Name(), p.Type())
+		if mparams[i] {
+			// a byte buffer the function writes: array identity, offset, length, capacity over E|uint8
+			n := "p_" + p.Name()
+			v = Val{T: p.Type(), Mut: true, L: []string{fx.fresh(n+".arr", "Int"), fx.fresh(n+".off", "Int"), fx.fresh(n+".len", "Int"), fx.fresh(n+".cap", "Int")}}
+			fx.assert("(and (>= " + v.L[0] + " 0) (< " + v.L[0] + " " + st.get(fx, "G|alloc") + ") (>= " + v.L[1] + " 0) (>= " + v.L[2] + " 0) (>= " + v.L[3] + " " + v.L[2] + ") (<= " + v.L[3] + " 1073741824))")
+			fx.assert("(=> (= " + v.L[0] + " 0) (= " + v.L[3] + " 0))")
+		}
 		fr.vals[p] = v
 		fr.params[p.Name()] = v
 	}
@@ -241,7 +266,7 @@ func (fr *Frame) computeAllowed(mods []string, entry *State) map[string]*frameAl
 			e, _ := parseSpecExpr(strings.TrimSuffix(strings.TrimPrefix(m, "elems("), ")"))
 			v := ev.eval(e)
 			sl := v.T.Underlying().(*types.Slice)
-			for _, k := range fr.typeComps("E|", sl.Elem(), "", sl.Elem()) {
+			for _, k := range fr.elemComps(sl.Elem()) {
 				a := get(k)
 				a.refs = append(a.refs, v.L[0])
 			}
@@ -464,12 +489,12 @@ func (E *Engine) solve(r *FuncResult, sel func(*Obligation) bool, sem chan struc
 			f := filepath.Join(dir, fmt.Sprintf("all%d.smt2", c))
 			writeFile(f, script)
 			sem <- struct{}{}
-			ans, secs, raw := runIncremental("z3-new", f, time.Duration(len(order)*2+20)*time.Second)
+			ans, secs, raw := runIncremental("z3-new-noext", f, time.Duration(len(order)*2+20)*time.Second)
 			<-sem
 			for i, o := range order {
 				if i < len(ans) && ans[i] == "unsat" {
 					o.Status = "discharged"
-					o.Solver = "z3-new(incremental)"
+					o.Solver = "z3-new-noext(incremental)"
 					o.Secs = secs / float64(len(order))
 				}
 			}
@@ -506,6 +531,8 @@ func tail(s string, n int) string {
 	return s
 }
 
+var retrySem = make(chan struct{}, 4)
+
 func (E *Engine) solveOne(r *FuncResult, o *Obligation, dir string, sem chan struct{}) {
 	f := filepath.Join(dir, safeName(strings.TrimPrefix(o.Name, r.Key))+".smt2")
 	writeFile(f, r.scriptUpTo(o, false))
@@ -533,14 +560,20 @@ func (E *Engine) solveOne(r *FuncResult, o *Obligation, dir string, sem chan str
 	// z3 4.8.12 is used in E-matching mode only: in its default (MBQI) mode it answered unsat on an
 	// obligation that is false on the real code (known finding F8b) and that z3 5.1 and cvc5 do not
 	// prove, so its MBQI answers are not trusted (DESIGN.md A2)
-	cfgs := []cfg{{"z3-new", nil}, {"z3-new-mbqi", nil}, {"z3-ematch", nil}, {"cvc5", nil}}
+	cfgs := []cfg{{"z3-new-noext", nil}, {"z3-new", nil}, {"z3-new-mbqi", nil}, {"z3-ematch", nil}, {"cvc5", nil}}
 	resc := make(chan SolverRes, len(cfgs))
+	pctx, pcancel := context.WithCancel(context.Background())
+	defer pcancel()
 	for _, c := range cfgs {
 		c := c
 		go func() {
 			sem <- struct{}{}
 			defer func() { <-sem }()
-			resc <- runSolver(c.solver, f, qt, c.extra...)
+			if pctx.Err() != nil {
+				resc <- SolverRes{Status: "cancelled", Solver: c.solver}
+				return
+			}
+			resc <- runSolverCtx(pctx, c.solver, f, qt, c.extra...)
 		}()
 	}
 	var all []SolverRes
@@ -551,6 +584,49 @@ func (E *Engine) solveOne(r *FuncResult, o *Obligation, dir string, sem chan str
 			o.Status = "discharged"
 			o.Solver = res.Solver
 			o.Secs = res.Secs
+			if os.Getenv("GOVC_NOCANCEL") == "" {
+				pcancel() // the other solvers are no longer needed
+			}
+		}
+	}
+	if os.Getenv("GOVC_NOCANCEL") != "" {
+		var sb strings.Builder
+		for _, res := range all {
+			sb.WriteString(fmt.Sprintf("%s:%s(%.1fs) ", res.Solver, res.Status, res.Secs))
+		}
+		fmt.Fprintf(os.Stderr, "PORTFOLIO %s %s\n", o.Name, sb.String())
+	}
+	if o.Status == "" {
+		// retry: a solver that ran out of time (rather than giving up) gets four times the budget, with few
+		// retries running at once, so that a borderline proof does not turn into an alarm under load
+		var again []string
+		sawSat := false
+		for _, res := range all {
+			if res.Status == "timeout" && (res.Solver == "z3-new" || res.Solver == "z3-ematch" || res.Solver == "z3-new-noext") {
+				again = append(again, res.Solver)
+			}
+			if res.Status == "sat" {
+				sawSat = true
+			}
+		}
+		if !sawSat && len(again) > 0 && o.Finding == "" {
+			retrySem <- struct{}{}
+			rc := make(chan SolverRes, len(again))
+			for _, s := range again {
+				s := s
+				go func() { rc <- runSolver(s, f, 3*qt) }()
+			}
+			for range again {
+				res := <-rc
+				res.Solver += "(retry)"
+				all = append(all, res)
+				if res.Status == "unsat" && o.Status == "" {
+					o.Status = "discharged"
+					o.Solver = res.Solver
+					o.Secs = res.Secs
+				}
+			}
+			<-retrySem
 		}
 	}
 	if o.Status == "discharged" {
